@@ -415,7 +415,7 @@ func exec(op string) vlib.Res {
 	if f[0] == "conc" {
 		return execConc(f[1], f[2:])
 	}
-	if f[0] != "umap" && f[0] != "segmap" && f[0] != "cache" && f[0] != "lim" && f[0] != "ans" {
+	if f[0] != "umap" && f[0] != "segmap" && f[0] != "cache" && f[0] != "lim" && f[0] != "ans" && f[0] != "fail" {
 		return vlib.Res{Impl: "bad-op"}
 	}
 	// Watchdog: a (mutated) table must never hang the driver. Each op runs in
@@ -445,6 +445,8 @@ func exec(op string) vlib.Res {
 			ch <- execCache(f[1], f[2:])
 		case "ans":
 			ch <- execAns(f[1], f[2:])
+		case "fail":
+			ch <- execFail(f[1], f[2:])
 		default:
 			ch <- execLim(f[1], f[2:])
 		}
